@@ -6,13 +6,34 @@ From Verif Require Import Model.C04 Proofs.C04.
 Import ListNotations.
 Open Scope Z_scope.
 
-(* After rejuvenate() of the youngest member -- in ANY state of the chain,
-   i.e. after any interleaving of edits -- every child has as many events as
-   its parent's filter selects and each of its feature columns is the
-   parent's column restricted to the selected events, in order. *)
+(* The lazy caches are model state: [l_cache] holds the ChildScalar arrays
+   computed so far (filled by reads at arbitrary moments, emptied only by
+   apply_filter), [read] is `ds[feat][:]`.  After rejuvenate() of the
+   youngest member -- in ANY state of the chain and of its caches, i.e.
+   after any interleaving of edits and reads -- a read of any scalar or
+   temporary feature on any member c with parent p returns the parent's
+   read restricted to the events the parent's filter selects, in order; and
+   the chain stays coherent under further reads.  (False for a model that
+   does not empty the cache: Example ex_stale_read.) *)
+Theorem C04_read_after_rejuvenate_is_view :
+  forall (st : state) k c p anc s,
+    let ls := s_levels (fst (step st (3, 1, 0, 0, 0))) in
+    skipn k ls = c :: p :: anc ->
+    fst (read (c :: p :: anc) s)
+    = option_map (select (f_all (l_filt p))) (fst (read (p :: anc) s))
+    /\ coh (snd (read (c :: p :: anc) s)).
+Proof. exact read_after_rejuvenate_is_view. Qed.
+Print Assumptions C04_read_after_rejuvenate_is_view.
+
+(* len(child) and the values the refresh itself worked with (what
+   Filter.update read): after rejuvenate (with, op (3,0,..), or without,
+   op (3,1,..), reading everything afterwards) every child has as many
+   events as its parent's filter selects and its refresh-time columns are
+   the parent's restricted to the selected events. *)
 Theorem C04_rejuvenate_child_is_view :
   forall st : state,
-    view_ok (s_levels (fst (step st (3, 0, 0, 0, 0)))).
+    view_ok (s_levels (fst (step st (3, 0, 0, 0, 0))))
+    /\ view_ok (s_levels (fst (step st (3, 1, 0, 0, 0)))).
 Proof. exact rejuvenate_child_is_view. Qed.
 Print Assumptions C04_rejuvenate_child_is_view.
 
@@ -124,7 +145,7 @@ Print Assumptions C04_history_manual_exclusions.
 Theorem C04_history_root_ids_after_rejuvenate :
   forall n cols ops st gs,
     spec_run (init n cols) [mkghost [] []] ops = (st, gs) ->
-    rids_ok (s_levels (fst (step st (3, 0, 0, 0, 0)))).
+    rids_ok (s_levels (fst (step st (3, 1, 0, 0, 0)))).
 Proof. exact history_rids_after_rejuvenate. Qed.
 Print Assumptions C04_history_root_ids_after_rejuvenate.
 
@@ -223,9 +244,9 @@ Print Assumptions C04_set_temp_no_error_when_refreshed.
    manual exclusions of both chains keep their meaning in root ids. *)
 Theorem C04_siblings_rejuvenate_view :
   forall s : sib,
-    (let s' := fst (sib_step s (3, 0, 0, 0, 0)) in
+    (let s' := fst (sib_step s (3, 1, 0, 0, 0)) in
      view_ok (sb_a s' ++ sb_anc s'))
-    /\ (let s' := fst (sib_step s (13, 0, 0, 0, 0)) in
+    /\ (let s' := fst (sib_step s (13, 1, 0, 0, 0)) in
         view_ok (sb_b s' ++ sb_anc s')).
 Proof. exact sib_rejuvenate_view. Qed.
 Print Assumptions C04_siblings_rejuvenate_view.
